@@ -199,6 +199,7 @@ Proof.
       intros Hin. apply in_app_or in Hin. destruct Hin as [Hin|[Hin|[]]]; [contradiction|].
       apply Hni. change (x2 :: map snd r') with (map snd ((h2, x2) :: r')). apply in_map_iff. exists p. split; [symmetry; exact Hin|exact Hpin].
   - split; [exact Hc|split; [exact Hp|exact Hm]].
+  - split; [exact Hc|split; [exact Hp|exact Hm]].
   - destruct (s_mode s) as [[|[h x] r]|] eqn:Em; try (cbn [fst]; split; [exact Hc|split; [exact Hp|try rewrite Em; exact Hm]]).
     destruct (hash_at (s_chain s) h =? x); [cbn [fst]; split; [exact Hc|split; [exact Hp|try rewrite Em; exact Hm]]|].
     destruct (end_round start _) as [s2 l2] eqn:E2. cbn [fst].
@@ -276,6 +277,7 @@ Proof.
         intros Hin. apply in_app_or in Hin. destruct Hin as [Hin|[Hin|[]]]; [contradiction|].
         cbn [map] in Hn. inversion Hn as [|? ? Hni _]. apply Hni. left. symmetry. exact Hin.
       * reflexivity.
+  - cbn. split; [constructor|rewrite app_nil_r; reflexivity].
   - cbn. split; [constructor|rewrite app_nil_r; reflexivity].
   - destruct (s_mode s) as [[|[h x] r]|] eqn:Em; try (cbn; split; [constructor|rewrite app_nil_r; reflexivity]).
     destruct (hash_at (s_chain s) h =? x); [cbn; split; [constructor|rewrite app_nil_r; reflexivity]|].
